@@ -107,7 +107,16 @@ fn run_case(seed: u64) -> Case {
     let r = catch_unwind(AssertUnwindSafe(|| {
         let mut server = mk();
         let mut client = mk();
-        let es = match ExampleServer::new(0) {
+        // (a machine that is churning through loopback sockets may be out of free ports for a moment)
+        let mut es = ExampleServer::new(0);
+        for _ in 0..200 {
+            if es.is_ok() {
+                break;
+            }
+            std::thread::sleep(Duration::from_millis(10));
+            es = ExampleServer::new(0);
+        }
+        let es = match es {
             Ok(s) => s,
             Err(e) => {
                 case.inconclusive = Some(format!("cannot open a loopback listener: {e}"));
